@@ -233,6 +233,7 @@ func batch(t *testing.T, e Engine) {
 	budget := time.Duration(envInt("VERIF_BUDGET_MS", 10000)) * time.Millisecond
 	maxRuns := int(envInt("VERIF_MAXRUNS", 1<<40))
 	maxViol := int(envInt("VERIF_MAXVIOL", 3))
+	watchdog := time.Duration(envInt("VERIF_WATCHDOG_S", 30)) * time.Second
 	out := os.Getenv("VERIF_OUT")
 	if out == "" {
 		fmt.Fprintln(os.Stderr, "worker: VERIF_OUT required")
@@ -262,7 +263,14 @@ func batch(t *testing.T, e Engine) {
 		}
 		sum.LastSeed = seed
 		tape := simrt.NewTape(seed)
+		wd := time.AfterFunc(watchdog, func() {
+			fmt.Fprintf(os.Stderr, "WATCHDOG seed=%d ran longer than %v\n", seed, watchdog)
+			buf := make([]byte, 1<<16)
+			os.Stderr.Write(buf[:runtime.Stack(buf, true)])
+			os.Exit(5)
+		})
 		oc := e.Run(t, tape, opt)
+		wd.Stop()
 		sum.Runs++
 		if oc.Res != nil {
 			sum.Steps += int64(oc.Res.Steps)
